@@ -35,6 +35,8 @@ pub struct Outcome {
     /// engine-level fault kinds fired in this run
     pub states: Vec<u64>,
     pub step_cap_hit: bool,
+    /// ordered site pairs at which a context switch happened (engine E1)
+    pub switch_pairs: Vec<u32>,
 }
 
 pub trait Harness: Sync {
@@ -121,6 +123,7 @@ pub struct Agg {
     pub ileave: HashSet<u64>,
     pub ileave_capped: bool,
     pub states: HashSet<u64>,
+    pub switch_pairs: HashSet<u32>,
     pub samples: Vec<Value>,
 }
 
@@ -153,6 +156,9 @@ impl Agg {
         for s in &o.states {
             let _ = self.states.insert(*s);
         }
+        for p in &o.switch_pairs {
+            let _ = self.switch_pairs.insert(*p);
+        }
     }
     pub fn merge(&mut self, other: Agg) {
         self.runs += other.runs;
@@ -181,6 +187,7 @@ impl Agg {
             }
         }
         self.states.extend(other.states);
+        self.switch_pairs.extend(other.switch_pairs);
         self.samples.extend(other.samples);
     }
 }
@@ -528,6 +535,7 @@ pub fn write_evidence(
         "fault_kinds_fired": agg.faults,
         "probes": agg.probes,
         "distinct_abstract_states": agg.states.len(),
+        "distinct_ordered_switch_site_pairs": agg.switch_pairs.len(),
         "real_vs_stub": real_vs_stub,
     });
     if let (Some(c), Some(e)) = (coverage.as_object_mut(), extra.as_object()) {
